@@ -140,6 +140,18 @@ func decode(encoded encodedMessage) (messageWithHeader, error) {
 }
 
 func (c *Conversation) receiveDecoded(message messageWithHeader) (plain MessagePlaintext, toSend []messageWithHeader, err error) {
+	// a message that ends up rejected must decide neither the protocol version
+	// nor the peer instance this conversation is bound to
+	previousVersion, previousTheirTag := c.version, c.theirInstanceTag
+	forget := func() {
+		c.version, c.theirInstanceTag = previousVersion, previousTheirTag
+	}
+	defer func() {
+		if err != nil {
+			forget()
+		}
+	}()
+
 	if err = c.checkVersion(message); err != nil {
 		return
 	}
@@ -147,6 +159,7 @@ func (c *Conversation) receiveDecoded(message messageWithHeader) (plain MessageP
 	var messageHeader, messageBody []byte
 	if messageHeader, messageBody, err = c.parseMessageHeader(message); err != nil {
 		if err == errReceivedMessageForOtherInstance {
+			forget()
 			err = nil
 		}
 		return
